@@ -309,7 +309,7 @@ TableOK(bins) ==
                             /\ BI(bins[k]) >= 0 /\ BW(bins[k]) >= 0 /\ BD(bins[k]) >= 0
                             /\ Abs(BX(bins[k])) <= 250 /\ BD(bins[k]) <= 1000
     /\ \A k \in 1..(Len(bins) - 1) :
-          /\ BI(bins[k]) < BI(bins[k + 1])                                                     \* labels of a filtered default index
+          /\ \A m \in (k + 1)..Len(bins) : BI(bins[k]) # BI(bins[m])                          \* distinct labels (filtered / re-ordered / offset index)
           /\ \/ BC(bins[k]) < BC(bins[k + 1])                                                  \* sorted by chromosome,
              \/ BC(bins[k]) = BC(bins[k + 1]) /\ BE(bins[k]) <= BS(bins[k + 1])                \* then position; disjoint
     /\ SumW(bins) <= 2000                                                                      \* keeps Close() inside 32 bits
